@@ -2,6 +2,7 @@ import H3.Lemmas.PrefixInt
 import H3.Lemmas.HuffTables
 import H3.Lemmas.HuffFits
 import H3.Lemmas.HuffEncFits
+import H3.Lemmas.HuffLax
 import H3.Model.PrefixString
 /-! # C15 — QPACK prefixed integers and Huffman string literals
 
@@ -427,6 +428,65 @@ theorem C15_huffman_accepts_exactly_partial (b : List Nat) (hb : ∀ x ∈ b, x 
 
 example : Spec.Huffman.specDecode [0x18, 0xff] = some [97, 97] ∧
     Huffman.hdecodeX [0x18, 0xff] = .ok ([97, 97], false) := by decide +kernel
+
+open H3.Bits H3.Spec.Huffman H3.Huffman in
+/-- The D-15 set, EXACTLY (so that the exclusion `lax = false` of `C15_huffman_accepts_exactly_partial` is a known,
+    enumerated set and not "whatever the decoder accepts beyond the RFC": any further loosening of `check_eof`,
+    once modelled, makes this theorem false instead of widening the waiver).
+    For a byte string `b`, let `tail` be the bits behind the last complete symbol.  The level tree consumes a path
+    `c` of it up to the level boundary at which the next level's `lookup` bits are not there (`walkL root (c ++ q) =
+    .short q`: `c` = what the levels above have taken, `q` = what is left), and `check_eof` judges `q` alone.
+    (1) ALL the decoder accepts, flag included: `enc s ++ tail` where `q` is empty (arm `Ordering::Greater`) or at
+        most eight bits, all ones (arm `Ordering::Equal`: the rest of the last byte); flag = `tail` is no valid
+        padding.
+    (2) Accepted although RFC 7541 §5.2 forbids it (flag `true`, printed `#D-15`) IFF moreover `c ++ q` is longer
+        than 7 bits, or `c` has a zero bit.  That is: (a) padding of 8 bits or more, all ones, most of which the
+        levels have swallowed (`ff`: `11111111|`), up to and including the 30 ones of EOS and more (`ffffffff`:
+        30 ones `|11`); (b) the beginning of a code word that is not all ones, cut at a level boundary, alone or
+        followed by at most eight ones (`18ef`: `10111|1`; `fe`: `11111110|`) — "padding not a prefix of EOS".
+        Nothing else: in particular never a `q` with a zero bit, never more than eight unjudged bits behind the
+        level boundary, never a `.unhandled` table slot.
+    (3) The same for `Huffman.lax`, the flag the driver prints. -/
+theorem C15_huffman_lax_set_exact (b : List Nat) (hb : ∀ x ∈ b, x < 256) :
+    (∀ s l, hdecodeX b = .ok (s, l) ↔
+      (∀ x ∈ s, x < 256) ∧ ∃ tail q, bitsOf b = enc s ++ tail ∧ walkL H3.Gen.HuffDec.root tail = .short q ∧
+        (q = [] ∨ (q.length ≤ 8 ∧ ∀ x ∈ q, x = true)) ∧ l = !validPad tail) ∧
+    (∀ s, hdecodeX b = .ok (s, true) ↔
+      (∀ x ∈ s, x < 256) ∧ ∃ c q, bitsOf b = enc s ++ (c ++ q) ∧
+        walkL H3.Gen.HuffDec.root (c ++ q) = .short q ∧
+        (q = [] ∨ (q.length ≤ 8 ∧ ∀ x ∈ q, x = true)) ∧
+        (7 < c.length + q.length ∨ ∃ x ∈ c, x = false)) ∧
+    (Huffman.lax b = true ↔ ∃ s,
+      (∀ x ∈ s, x < 256) ∧ ∃ c q, bitsOf b = enc s ++ (c ++ q) ∧
+        walkL H3.Gen.HuffDec.root (c ++ q) = .short q ∧
+        (q = [] ∨ (q.length ≤ 8 ∧ ∀ x ∈ q, x = true)) ∧
+        (7 < c.length + q.length ∨ ∃ x ∈ c, x = false)) := by
+  refine ⟨fun s l => ?_, fun s => lax_iff b hb s, ?_⟩
+  · rw [hdecodeX_iff b hb s l]
+    simp only [eofOK_iff]
+  · constructor
+    · intro h
+      unfold Huffman.lax at h
+      cases hx : hdecodeX b with
+      | error e => rw [hx] at h; cases h
+      | ok v =>
+        obtain ⟨s, l⟩ := v
+        rw [hx] at h
+        simp only at h
+        subst h
+        exact ⟨s, (lax_iff b hb s).mp hx⟩
+    · rintro ⟨s, h⟩
+      have := (lax_iff b hb s).mpr h
+      simp [Huffman.lax, this]
+
+-- the witnesses in the terms of the theorem: `ff` = the levels swallow all eight ones, nothing is left to judge
+-- (`Greater`); `ffffffff` = they swallow the 30 ones of EOS, two ones are judged (`Equal`); `18ef` behind `aa`:
+-- `10111` consumed, one `1` judged; `fe`: `11111110` consumed; seven ones (valid) go the same way as eight
+example : H3.Huffman.walkL H3.Gen.HuffDec.root (List.replicate 8 true) = .short [] ∧
+    H3.Huffman.walkL H3.Gen.HuffDec.root (List.replicate 32 true) = .short [true, true] ∧
+    H3.Huffman.walkL H3.Gen.HuffDec.root [true, false, true, true, true, true] = .short [true] ∧
+    H3.Huffman.walkL H3.Gen.HuffDec.root [true, true, true, true, true, true, true, false] = .short [] ∧
+    H3.Huffman.walkL H3.Gen.HuffDec.root (List.replicate 7 true) = .short [] := by decide +kernel
 
 /-- The full-strength strictness statement is false for the code that exists: the three D-15
     witnesses (and `fe`: padding with a zero bit) are accepted by the decoder, through the flagged
